@@ -65,6 +65,7 @@ type Machine struct {
 	journaling                                bool
 	Steps                                     int64
 	StepBudget                                int64
+	BudgetIsViolation                         bool
 	FuncHits                                  map[string]int64
 	SkippedInits                              map[string]bool
 	pools                                     map[*value][]value
